@@ -24,7 +24,7 @@ BOUNDARY = [1, 9, 10, 0x20, 0x41, 0x7e, 0x7f, 0x80, 0xa0, 0xe9, 0x7ff, 0x800, 0x
 
 
 def prepare(build, tier):
-    return {"psrv": probe.build_psrv(build), "vi": build.vi_asan()}
+    return {"psrv": probe.build_psrv(build), "vi": build.vi_asan(), "prx": build.probe("prx")}
 
 
 def budget(tier):
@@ -139,6 +139,9 @@ def check_string(p, b):
 
 
 def run_case(env, c):
+    if c["kind"] == "rxdec":
+        n, bad, why = _prx(env)
+        return Outcome(bad == -1, True, ["rxdec"], detail={"why": "regex.c's private decoder disagrees with the encoding at U+%04X: %s" % (max(bad, 0), why)})
     if c["kind"] == "str":
         p = probe.get(env)
         b = c["s"]
@@ -199,9 +202,23 @@ def run_case(env, c):
 
 
 # ------------------------------------------------------------------ exhaustive parts
+def _prx(env):
+    import subprocess
+    r = subprocess.run([env.paths["prx"]], stdout=subprocess.PIPE, stderr=subprocess.PIPE, env={"ASAN_OPTIONS": runner.ASAN_OPTIONS})
+    if r.returncode != 0:
+        return 0, -2, r.stderr.decode("utf-8", "replace")[-600:]
+    n, bad, why = r.stdout.split()
+    return int(n), int(bad), {0: "", 1: "uc_len", 2: "uc_dec (code point value)", 3: "uc_beg from an interior byte", 4: "uc_len of a truncated sequence runs past the terminator"}.get(int(why), why)
+
+
 def extra(env, tier, seed):
     p = probe.Probe(env.paths["psrv"])
     res = []
+    # the private copy of the decoders inside regex.c (probe/prx.c includes regex.c): every scalar value
+    n, bad, why = _prx(env)
+    res.append({"name": "regex_private_decoders_all_scalar_values", "exhaustive": True, "evaluations": n, "distinct_nontrivial": n,
+                "space": "U+0001..U+10FFFF minus surrogates", "samples": ["U+00E9", "U+0430", "U+0644", "U+65E5", "U+1F600"],
+                "violations": ([{"case": {"kind": "rxdec", "cp": bad}}] if bad != -1 else []), "first_bad": ("U+%04X %s" % (bad, why)) if bad >= 0 else (why if bad == -2 else None)})
     n, bad, why = p.call("enc", 1, 0x110000)[0]
     e = {"name": "all_scalar_values", "exhaustive": True, "evaluations": n, "distinct_nontrivial": n,
          "space": "U+0001..U+10FFFF minus surrogates", "samples": ["U+0041", "U+00E9", "U+65E5", "U+1F600", "U+10FFFF"], "violations": []}
